@@ -154,16 +154,21 @@ Proof. split; [vm_compute; reflexivity|]. eexists. split; vm_compute; reflexivit
 (* After EVERY sequence of OnPacketSent / OnCongestionEventEx / SetMaxDatagramSize events (any
    packet numbers, any byte counts - int64 wrap of the intermediate sums included -, any oracle
    values; datagram sizes non-decreasing and <= MaxPacketBufferSize), starting from
-   NewBbrSender(m): no panic, and 4*mds <= GetCongestionWindow <= maxCongestionWindow,
+   newBbrSender(m, icw, mcw) for ANY configured initial / maximum window with
+   4 datagrams <= icw <= mcw <= 20000 datagrams (NewBbrSender(m) is the instance 32*m, 20000*m):
+   no panic, and 4*mds <= GetCongestionWindow <= maxCongestionWindow,
    4*mds <= maxCongestionWindow (C12_min_le_max) in every mode and recovery state. *)
-Theorem C12_cwnd_range : forall m agg es,
-  0 < m <= c12_MaxPacketBufferSize -> mds_ok m es ->
-  exists st, wrun agg (new_sender m) es = Ok st /\ winv st /\
+Theorem C12_cwnd_range : forall m icw mcw agg es,
+  0 < m <= c12_MaxPacketBufferSize ->
+  c12_minCongestionWindowPackets * m <= icw <= mcw -> mcw <= c12_MaxCongestionWindowPackets * m ->
+  mds_ok m es ->
+  new_sender m = new_sender_with m (c12_initialCongestionWindowPackets * m) (c12_MaxCongestionWindowPackets * m) /\
+  exists st, wrun agg (new_sender_with m icw mcw) es = Ok st /\ winv st /\
     c12_minCongestionWindowPackets * mds st <= get_cwnd st <= maxCW st /\
     c12_minCongestionWindowPackets * mds st <= maxCW st.
 Proof.
-  intros m agg es Hm Hok.
-  destruct (wrun_inv es agg (new_sender m) (new_sender_inv m Hm) Hok) as (st & E & W).
+  intros m icw mcw agg es Hm Hi Hx Hok. split; [reflexivity|].
+  destruct (wrun_inv es agg (new_sender_with m icw mcw) (new_sender_with_inv m icw mcw Hm Hi Hx) Hok) as (st & E & W).
   exists st. split; [exact E|]. split; [exact W|]. pose proof (get_cwnd_range st W). split; [assumption|lia].
 Qed.
 Print Assumptions C12_cwnd_range.
@@ -183,9 +188,22 @@ Proof.
 Qed.
 Print Assumptions C12_cwnd_range_step.
 
-(* bandwidthForPacer >= minBps (65536) whatever the float conversion of the pacing rate returns *)
-Theorem C12_pacing_floor : forall bps, c12_minBps <= bandwidth_for_pacer bps /\ c12_minBps = 65536.
-Proof. intros. split; [apply pacer_floor|reflexivity]. Qed.
+(* bandwidthForPacer, about the DIVISION RESULT: for every pacing rate (Bandwidth = uint64 bits per second, any
+   value PacingRate() can return) the value handed to the pacer is max(minBps, float64(rate)/BytesPerSecond
+   truncated) >= minBps = 65536 BYTES per second, with BytesPerSecond = 8; for rates below 2^53 bits/s (1 PB/s)
+   that is max(65536, rate/8) exactly: the floor is what the pacer gets for every rate below 8*65536 = 524288
+   bits/s and rate/8 above.  (A floor test on the bits/s value itself fails this: floor_before_division_refuted.) *)
+Theorem C12_pacing_floor : forall rate,
+  c12_minBps <= bandwidth_for_pacer rate /\
+  bandwidth_for_pacer rate = Z.max c12_minBps (f64_of_u64 (u64 rate) / c12_BytesPerSecond) /\
+  (0 <= rate < 9007199254740992 ->
+     bandwidth_for_pacer rate = Z.max 65536 (rate / 8) /\
+     (rate < 8 * 65536 -> bandwidth_for_pacer rate = 65536) /\
+     (8 * 65536 <= rate -> bandwidth_for_pacer rate = rate / 8)) /\
+  c12_minBps = 65536 /\ c12_BytesPerSecond = 8.
+Proof.
+  intros. split; [apply pacer_floor|]. split; [apply pacer_is_max|]. split; [apply pacer_units|]. split; reflexivity.
+Qed.
 Print Assumptions C12_pacing_floor.
 
 (* SetMaxDatagramSize: a size >= the current one (and <= MaxPacketBufferSize) never panics and keeps
@@ -284,6 +302,20 @@ Example C12_window_example :
      WCong 1200 1200 0 (Some 2) false (mkO c12_modeProbeRtt true 50000 0 0 1200 0 3600)] = Ok st /\
   recState st = c12_recConservation /\ get_cwnd st = 4 * 1452 /\ maxCW st = 20000 * 1452.
 Proof. eexists. split; [vm_compute; reflexivity|]. vm_compute. auto. Qed.
+
+(* both clamps are load-bearing where the code has them: the window cap after the full-bandwidth branch
+   (a sender sitting at the maximum in PROBE_BW with a target above it), the floor test after the division
+   (40 KB/s = 320000 bits/s pacing rate in DRAIN on a slow path) *)
+Example C12_clamps_example :
+  (exists st target bytesAcked, winv st /\ mds st = 1200 /\
+     maxCW st < cwnd (calc_cwnd_cap_in_startup_only st false target 0 0 bytesAcked 0) /\
+     cwnd (calc_cwnd st false target 0 0 bytesAcked 0) = maxCW st) /\
+  bandwidth_for_pacer_floor_before_division 320000 = 40000 /\ bandwidth_for_pacer 320000 = 65536 /\
+  bandwidth_for_pacer 4000000 = 500000 /\ bandwidth_for_pacer 18446744073709551615 = 2305843009213693952.
+Proof.
+  split; [apply cap_in_startup_only_refuted; vm_compute; split; [reflexivity|discriminate]|].
+  vm_compute. auto.
+Qed.
 
 Example C12_consistent_example :
   quic_consistent 1200 [QSent 0 1200 true; QSent 1 50 false; QSent 3 1200 true; QSent 4 1200 true;
